@@ -33,6 +33,8 @@ ASSUME = [
     "substitutions inside payload bytes (values, string characters) cannot be detected by this format and are outside the statement; "
     "damage to length / count / index / archive-name fields is only required to be safe, not detected",
     "Listener flag bytes are not damaged (a set bit makes Listener::Archive read con::set tables, which is outside Archiver.cpp)",
+    "class-name bytes of a record read with the polymorphic ReadObject() are only required to be safe: that reader has no "
+    "expected class (a name damaged into another registered name yields an object of that class, visible to the caller)",
 ]
 
 
